@@ -27,6 +27,7 @@ type c13Case struct {
 	Second bool     `json:"second"`          // a second variable W is defined too and used next to the first
 	Nested bool     `json:"nested"`          // run from a nested working directory
 	Twin   bool     `json:"twin,omitempty"`  // a variable whose name differs only in letter case is defined too
+	Pos    string   `json:"pos,omitempty"`   // where the variable is declared: "" above every task, "between" the two tasks, "below" both
 }
 
 // Env, Names, String: names that coincide with plausible method names of whatever value the template engine is handed
@@ -44,6 +45,37 @@ func c13Twin(n string) string {
 func shellSafe(v string) bool { return !strings.ContainsAny(v, "'\n\r()") }
 
 func (c c13Case) text() string {
+	var sb strings.Builder
+	sb.WriteString(c.declText(""))
+	second := ""
+	if c.Second {
+		second = "{{.W}}"
+	}
+	if c.Pos == "" {
+		fmt.Fprintf(&sb, "\ntask tmpl() {\n    echo X{{.%s}}X literal $UNTOUCHED %s {{.%s}}\n}\n\n", c.Name, second, c.Name)
+	} else {
+		sb.WriteString("\ntask tmpl() {\n    echo nothing\n}\n\n")
+	}
+	sb.WriteString(c.declText("between"))
+	fmt.Fprintf(&sb, "task envt() {\n    printf '%%s\\n' \"$%s\"\n", c.Name)
+	if c.Second {
+		sb.WriteString("    printf '%s\\n' \"$W\"\n")
+	}
+	if c.Twin {
+		fmt.Fprintf(&sb, "    printf '%%s\\n' \"$%s\"\n", c13Twin(c.Name))
+	}
+	// the same variable as seen by an external process started by the command
+	fmt.Fprintf(&sb, "    sh -c 'printf \"%%s\\n\" \"$%s\"'\n", c.Name)
+	sb.WriteString("}\n\n")
+	sb.WriteString(c.declText("below"))
+	return sb.String()
+}
+
+// declText: the variable declarations, when pos is where this case puts them
+func (c c13Case) declText(pos string) string {
+	if pos != c.Pos {
+		return ""
+	}
 	var sb strings.Builder
 	switch c.Kind {
 	case "string":
@@ -67,21 +99,6 @@ func (c c13Case) text() string {
 	if c.Twin {
 		fmt.Fprintf(&sb, "%s := \"twinvalue\"\n", c13Twin(c.Name))
 	}
-	second := ""
-	if c.Second {
-		second = "{{.W}}"
-	}
-	fmt.Fprintf(&sb, "\ntask tmpl() {\n    echo X{{.%s}}X literal $UNTOUCHED %s {{.%s}}\n}\n\n", c.Name, second, c.Name)
-	fmt.Fprintf(&sb, "task envt() {\n    printf '%%s\\n' \"$%s\"\n", c.Name)
-	if c.Second {
-		sb.WriteString("    printf '%s\\n' \"$W\"\n")
-	}
-	if c.Twin {
-		fmt.Fprintf(&sb, "    printf '%%s\\n' \"$%s\"\n", c13Twin(c.Name))
-	}
-	// the same variable as seen by an external process started by the command
-	fmt.Fprintf(&sb, "    sh -c 'printf \"%%s\\n\" \"$%s\"'\n", c.Name)
-	sb.WriteString("}\n")
 	return sb.String()
 }
 
@@ -115,7 +132,24 @@ func c13Cases(tier string) []c13Case {
 			out = append(out, c13Case{Name: n, Kind: "exec", Value: v})
 		}
 	}
+	// declared between or below the tasks: still in every command's environment
+	for _, pos := range []string{"between", "below"} {
+		for _, n := range []string{"V", "AMB", "DOT", "BOTH", "HOME"} {
+			for _, v := range []string{"plain", "", "a=b"} {
+				out = append(out, c13Case{Name: n, Kind: "string", Value: v, Pos: pos, Second: v == "plain"})
+			}
+			out = append(out, c13Case{Name: n, Kind: "join", Parts: []string{"a", "b"}, Pos: pos})
+			out = append(out, c13Case{Name: n, Kind: "exec", Value: "word", Pos: pos})
+		}
+	}
 	out = append(out, c13Case{Name: "V", Kind: "execfail"}, c13Case{Name: "DOT", Kind: "execfail"})
+	// exec whose command writes to standard error, and nothing or only white space to standard output
+	for _, n := range []string{"V", "AMB"} {
+		out = append(out,
+			c13Case{Name: n, Kind: "execraw", Cmd: `echo warning 1>&2`, Value: ""},
+			c13Case{Name: n, Kind: "execraw", Cmd: `echo warning 1>&2; printf ' \n'`, Value: ""},
+			c13Case{Name: n, Kind: "execraw", Cmd: `echo out; echo warning 1>&2`, Value: "out"})
+	}
 	// exec output that is not plain text: terminal escape sequences, inner newlines, CRLF
 	out = append(out,
 		c13Case{Name: "V", Kind: "execraw", Cmd: `printf '\033[31mred\033[0m'`, Value: "\x1b[31mred\x1b[0m"},
@@ -216,7 +250,7 @@ func c13Run(root string, c c13Case) (obs []c13Obs, inv int) {
 		}
 	}
 	// template
-	if shellSafe(want) {
+	if shellSafe(want) && c.Pos == "" {
 		o = bin.Run(cwd, home, env, "tmpl", "--json")
 		inv++
 		rep = nil
